@@ -193,10 +193,8 @@ def parsePairs (s : String) : Option (List (Nat × Nat)) :=
       if pid < 65536 ∧ blp < 65536 then pure (pid, blp) else none
     | _ => none
 
-def responderComponent : Component where
-  σ := Option Resp
-  init := none
-  step := fun s ts =>
+/-- the responder ops without write-fault injection. -/
+def respStep (s : Option Resp) (ts : List String) : Option Resp × List String :=
     match ts, s with
     | "new" :: rest, _ =>
       let fs := fields rest
@@ -243,6 +241,44 @@ def responderComponent : Component where
       let (r', outs) := r.resume
       (some r', showOuts "rtx" outs ++ (if r.closeWaiting then ["close-waited=true late=0"] else []))
     | _, _ => (s, ["bad-op"])
+
+/-- write-fault injection (`fail rtx=K out=J`): the next K retransmission writes and the next J
+original writes reaching a bottom writer return an error.  A failed write changes nothing in the
+responder (the packet stays buffered, the resend loop goes on): only the observation differs —
+the attempt is shown as `rtx!` / `out!`, a failed original write also returns `err:write`. -/
+structure RState where
+  r : Option Resp := none
+  failRtx : Nat := 0
+  failOut : Nat := 0
+
+def markFails : Nat → Nat → List String → Nat × Nat × List String
+  | fr, fo, [] => (fr, fo, [])
+  | fr, fo, l :: ls =>
+    if l.startsWith "rtx " && fr > 0 then
+      let (a, b, rest) := markFails (fr - 1) fo ls
+      (a, b, ("rtx!" ++ (l.drop 3).toString) :: rest)
+    else if l.startsWith "out " && fo > 0 then
+      let (a, b, rest) := markFails fr (fo - 1) ls
+      (a, b, "err:write" :: ("out!" ++ (l.drop 3).toString) :: rest)
+    else
+      let (a, b, rest) := markFails fr fo ls
+      (a, b, l :: rest)
+
+def responderComponent : Component where
+  σ := RState
+  init := {}
+  step := fun s ts =>
+    match ts with
+    | "fail" :: rest =>
+      let fs := fields rest
+      match s.r, getBounded fs "rtx" 1000, getBounded fs "out" 1000 with
+      | some _, some a, some b => ({ s with failRtx := a, failOut := b }, [])
+      | _, _, _ => (s, ["bad-op"])
+    | _ =>
+      let (r', outs) := respStep s.r ts
+      let s := if ts.head? == some "new" then { s with failRtx := 0, failOut := 0 } else s
+      let (fr, fo, outs') := markFails s.failRtx s.failOut outs
+      ({ r := r', failRtx := fr, failOut := fo }, outs')
 
 def components : List (String × Component) :=
   [("rtpbuffer", rtpbufferComponent), ("pktfactory", pktfactoryComponent), ("responder", responderComponent)]
